@@ -137,7 +137,7 @@ AnyDesign(d) == TRUE
 SixCells(d)  == Cardinality(d) = 6
 ShapesQ    == { <<1,1,1>>, <<1,1,2>>, <<1,1,3>>, <<3,1,3>>, <<1,3,3>>, <<3,3,1>>, <<2,2,2>> }
 ShapesQ2   == { <<2,2,3>> }
-ShapesT    == ShapesQ \cup { <<2,2,3>>, <<3,2,2>>, <<2,3,2>>, <<4,3,1>>, <<3,3,2>> }
+ShapesT    == ShapesQ \cup { <<2,2,3>>, <<3,2,2>>, <<2,3,2>>, <<4,3,1>> }
 ShapesNeg  == { <<2,2,3>> }      \* smallest lattice on which max(shape) rounds are too few (a 6-cell helix)
 ShapesNeg2 == { <<3,3,1>> }
 ShapesImpl == { <<1,1,1>>, <<1,1,3>>, <<3,1,3>>, <<3,3,1>>, <<2,2,3>>, <<3,2,2>> }
